@@ -2837,6 +2837,12 @@ class PlateSlicer(Slicer):
             if set(map(id, numpy.ravel(frm.get()))) & set(map(id, numpy.ravel(to.get()))):
                 raise ValueError("Source and destination slices must not overlap.")
 
+        # a list naming a single well is that well
+        if isinstance(frm.slices, list) and len(frm.slices) == 1:
+            frm = PlateSlicer(frm.plate, frm.item[0])
+        if isinstance(to.slices, list) and len(to.slices) == 1:
+            to = PlateSlicer(to.plate, to.item[0])
+
         if frm.size == 1:
             # Source from the single element in frm
             if frm.shape != (1, 1):
